@@ -47,7 +47,7 @@ def addressed(spec, path):
     return out, op, var
 
 
-def gen_history(spec, fp, rnd, length, hier):
+def gen_history(spec, fp, rnd, length, hier, force=None):
     """returns (ops, expected spec, compile kwargs).  Always starts by giving every state variable its own initial
     value through update_var (array form for one node type, per-node scalars for the other)."""
     exp = copy.deepcopy(spec)
@@ -66,9 +66,13 @@ def gen_history(spec, fp, rnd, length, hier):
         ops.append(('update_var', f"{nn}/li/x", float(v)))
         exp.nodes[nn].overrides[('li', 'x')] = v
     names = list(spec.nodes)
-    for _ in range(length):
+    for step_ in range(length):
         kind = rnd.choice(['scalar', 'scalar', 'wild-scalar', 'wild-array', 'edge', 'node_values', 'edge_values',
-                           'partial-wild'])
+                           'partial-wild', 'add-edge'])
+        if force and step_ == 0:
+            kind = force
+        if kind == 'add-edge' and (hier or any(o[0] == 'add_edge_inplace' for o in ops)):
+            kind = 'scalar'
         if kind == 'scalar':
             nn = rnd.choice(names)
             op = spec.nodes[nn].ops[0]
@@ -98,6 +102,16 @@ def gen_history(spec, fp, rnd, length, hier):
             e = exp.edges[i]
             ops.append(('update_edge', e.src, e.tgt, float(v)))
             exp.edges[i] = EdgeSpec(e.src, e.tgt, v, e.delay, e.spread, e.template, e.edge_overrides)
+        elif kind == 'add-edge':
+            # update_template(edges=[...], in_place=True) adds an edge; the old AND the new edge stay addressable
+            v, v2, v3 = fp(), fp(), fp()
+            ops.append(('add_edge_inplace', 'a2/o1/x', 'a0/o1/w', float(v)))
+            exp.edges.append(EdgeSpec('a2/o1/x', 'a0/o1/w', v))
+            e = exp.edges[0]
+            ops.append(('update_edge', e.src, e.tgt, float(v2)))
+            exp.edges[0] = EdgeSpec(e.src, e.tgt, v2, e.delay, e.spread, e.template, e.edge_overrides)
+            ops.append(('update_edge', 'a2/o1/x', 'a0/o1/w', float(v3)))
+            exp.edges[-1] = EdgeSpec('a2/o1/x', 'a0/o1/w', v3)
         elif kind == 'node_values':
             nn = rnd.choice(names)
             op = spec.nodes[nn].ops[0]
@@ -129,6 +143,8 @@ def apply_ops(ct, ops):
             ct.update_var(node_vars={op[1]: val})
         elif op[0] == 'update_edge':
             ct.update_var(edge_vars=[(op[1], op[2], {'weight': op[3]})])
+        elif op[0] == 'add_edge_inplace':
+            ct.update_template(edges=[(op[1], op[2], None, {'weight': op[3]})], in_place=True)
     return ct
 
 
@@ -190,10 +206,16 @@ def job_fn(job):
         return derive_job(job)
     rnd = random.Random(job['seed'])
     spec, fp = base_spec(job['shared'], job['hier'])
-    ops, exp, kw = gen_history(spec, fp, rnd, job['length'], job['hier'])
+    ops, exp, kw = gen_history(spec, fp, rnd, job['length'], job['hier'], job.get('force'))
     j = dict(job)
     j['spec'] = exp
-    j['pre'] = lambda ct, _s: apply_ops(ct, ops)
+    def pre(ct, _s):
+        try:
+            return apply_ops(ct, ops)
+        except Exception as e:   # noqa -- a legal override operation that raises is reported, not a harness error
+            raise tv.CompileError(RuntimeError(f"override operation raises {type(e).__name__}: {e} (history "
+                                               f"{[str(o)[:60] for o in ops]})"))
+    j['pre'] = pre
     j['compile_kw'] = kw
     # build from the BASE spec (shared templates), then apply the history
     import pyverif.tvjobs as T
@@ -230,6 +252,11 @@ def run(tier='quick', seed=0, only=None, verbose=False):
                 jobs.append(dict(key=f"hist:{seed}:{i}:shared={shared}:hier={hier}|vec={vec}", seed=seed * 1000 + i,
                                  shared=shared, hier=hier, length=(i % 3) if tier == 'quick' else 1 + i % 5,
                                  vectorize=vec, spec=base_spec(shared, hier)[0]))
+    for i in range(2 if tier == 'quick' else 12):
+        for vec in (True, False):
+            jobs.append(dict(key=f"addedge:{seed}:{i}:shared={bool(i % 2)}|vec={vec}", seed=seed * 1000 + 900 + i,
+                             shared=bool(i % 2), hier=False, length=1 + i % 3, vectorize=vec, force='add-edge',
+                             spec=base_spec(bool(i % 2), False)[0]))
     for i in range(4 if tier == 'quick' else 40):
         for on in ('derived', 'base'):
             jobs.append(dict(key=f"derive:{seed}:{i}:on={on}|vec={bool(i % 2)}", seed=seed * 1000 + 500 + i, shared=bool(i % 3),
